@@ -2,12 +2,14 @@
    node is not touched after its callback started, and no call blocks or stops on valid use.
    Statements only; proofs are in Qs/QsWoProofs.v, Qs/QsWoGen.v (whole-operation granularity) and
    Qs/QsFgProofs.v, Qs/QsFgThms.v, Qs/QsFgGen.v (one atomic access or mutex call per step),
-   Qs/QsHbProofs.v, Qs/QsHbBarrier.v, Qs/QsHbGen.v (vector clocks).
+   Qs/QsHbProofs.v, Qs/QsHbBarrier.v, Qs/QsHbGen.v (vector clocks),
+   Qs/QsFgTerm.v, Qs/QsFgLive.v, Qs/QsFgLiveGen.v (termination of calls, liveness at access granularity).
    Model: Qs/QsModel.v; source-derived facts: Gen/QsOrders.v (translator/gen_qs.py). *)
 From Coq Require Import List NArith Bool Arith.
 Import ListNotations.
 From FV Require Import Qs.QsTypes Qs.QsModel Qs.QsFgModel Qs.QsGenOk Qs.QsWoProofs Qs.QsWoLive Qs.QsWoGen
-  Qs.QsFgProofs Qs.QsFgThms Qs.QsFgGen Qs.QsHbProofs Qs.QsHbBarrier Qs.QsHbGen.
+  Qs.QsFgProofs Qs.QsFgThms Qs.QsFgGen Qs.QsHbProofs Qs.QsHbBarrier Qs.QsHbGen
+  Qs.QsFgTerm Qs.QsFgLive Qs.QsFgLiveGen.
 Local Open Scope N_scope.
 
 (* ---- generated obligations (recomputed from the current qs.hpp on every run) ---------------- *)
@@ -283,11 +285,247 @@ Theorem C11_run_fires_wholeop :
 Proof. intros U ND HB s tr Hr t n. apply (gen_run_fires U ND HB s tr t n Hr). Qed.
 Print Assumptions C11_run_fires_wholeop.
 
-(* NOT PROVED (statements kept visible):
+(* ... and the further invariants used for liveness ([FAll] = FCore /\ FGhost /\ FLive, Qs/QsFgLive.v): when
+   agents_to_ack is 0 and somebody is online, some thread holds the period deferred or is on its way to
+   restart it; [desired] covers every node target and every quiescent_barrier target in its loop; the
+   expected value of a compare-exchange loop is at most [desired] and below the loop's target; every
+   agent's pending list is sorted by target, with targets at most counter + 2. *)
+Theorem C11_invariants_liveness :
+  forall U nown scripts sched s tr, NoDup U -> few U -> scripts_ok U nown scripts ->
+    gen_f_run sched (f0 scripts) [] = (s, tr) -> fstop s = None -> FAll U nown s.
+Proof. intros U nown scripts sched s tr ND HB Hok. apply (run_all U nown scripts ND HB Hok sched s tr). Qed.
+Print Assumptions C11_invariants_liveness.
 
-   C11_liveness at access granularity: for every fair scheduler every call terminates (the CAS loops of
-   await_barrier / quiescent_barrier retry only when [desired] grew, which is bounded by the target), and
-   the round theorem above for interleaved calls. *)
+(* ---- termination of calls and liveness at access granularity --------------------------------
+   Bounded progress under explicit scheduling assumptions (no coinduction).  [fexec sched s] and
+   [ftrace sched s] are the state and the events of a run of the fine-grained model ([gen_f_run]);
+   [fnext t s] is one step of thread t. *)
+Theorem C11_gen_run_is_exec :
+  (forall t s, fst (fst (gen_f_step t s)) = fnext t s) /\
+  (forall sched s tr, gen_f_run sched s tr = (fexec sched s, tr ++ ftrace sched s)).
+Proof. exact (conj gen_fnext gen_f_run_exec). Qed.
+Print Assumptions C11_gen_run_is_exec.
+
+(* Every call finishes within a bounded number of its own steps, not counting lock attempts on a held
+   mutex, failed compare-exchanges on [desired] and the iterations of quiescent_barrier's spin.
+   [rank th] (Qs/QsFgTerm.v) bounds the steps the thread still takes in its current call; [step_kind t s]
+   (a function of the state) classifies the step thread t takes in s.
+   (1) A step of kind KProgress decreases the rank; a call starts (KStart) with a rank of at most
+       [call_bound]: 7 for online/offline, 8 for quiescent_state, 4 for await_barrier and for
+       quiescent_barrier (up to its spin), 3 + the length of the agent's pending list for run(); a blocked
+       lock attempt (KBlocked) changes nothing; a failed compare-exchange (KCasFail) changes nothing
+       but the expected value, which was below [desired] and becomes [desired]; an iteration of the spin
+       (KSpin) calls quiescent_state().
+   (2) Over a run: the KProgress steps of t are paid for by the ranks its calls start with (+7 per spin
+       iteration) -- so a call other than quiescent_barrier finishes within [call_bound] such steps.
+   (3) The holder of the mutex is never blocked (its steps are KProgress) and releases the mutex
+       within 5 of its own steps ([hrank] decreases to 0); the steps of the other threads leave the
+       holder and the mutex alone.  So a blocked lock attempt is enabled after at most 5 steps of the
+       holder. *)
+Theorem C11_call_terminates :
+  forall U nown scripts sched s tr, NoDup U -> few U -> scripts_ok U nown scripts ->
+    gen_f_run sched (f0 scripts) [] = (s, tr) -> fstop s = None ->
+    (forall t s' evs op, gen_f_step t s = (s', evs, op) -> fstop s' = None ->
+       match step_kind t s with
+       | KNone => s' = s
+       | KStart c => (1 <= rank (fth s' t) <= call_bound c (tag (fth s t)))%nat
+       | KBlocked => s' = s
+       | KCasFail => rank (fth s' t) = rank (fth s t) /\ fd s' = fd s /\
+                     exists c, cas_expected (fth s t) = Some c /\ c < desired (fd s) /\
+                               cas_expected (fth s' t) = Some (desired (fd s))
+       | KSpin => (rank (fth s' t) <= rank (fth s t) + 7)%nat
+       | KProgress => (rank (fth s' t) < rank (fth s t))%nat
+       end) /\
+    (forall t sched', fstop (fexec sched' s) = None ->
+       (progress_steps t sched' s + rank (fth (fexec sched' s) t)
+        <= rank (fth s t) + start_budget t sched' s + 7 * spins t sched' s)%nat) /\
+    (forall h, fmx s = Some h ->
+       (forall s' evs op, gen_f_step h s = (s', evs, op) -> fstop s' = None ->
+          step_kind h s = KProgress /\
+          (hrank (tpc (fth s' h)) < hrank (tpc (fth s h)) <= 5)%nat /\
+          (hrank (tpc (fth s' h)) = 0%nat -> fmx s' = None) /\
+          ((1 <= hrank (tpc (fth s' h)))%nat -> fmx s' = Some h)) /\
+       (forall x s' evs op, x <> h -> gen_f_step x s = (s', evs, op) -> fstop s' = None ->
+          fmx s' = Some h /\ fth s' h = fth s h)).
+Proof.
+  intros U nown scripts sched s tr ND HB Hok Hrun Hstop.
+  pose proof (run_reach scripts sched s tr Hrun) as Hr. split; [|split].
+  - intros t s' evs op. apply (fgen_step_rank U nown scripts ND HB Hok s tr t s' evs op Hr Hstop).
+  - intros t sched'. apply fg_call_steps_bounded.
+  - intros h Hm. split.
+    + intros s' evs op. apply (fgen_holder U nown scripts ND HB Hok s tr h s' evs op Hr Hstop Hm).
+    + intros x s' evs op Hx. apply (fgen_holder_frame s x h s' evs op Hstop Hm Hx).
+Qed.
+Print Assumptions C11_call_terminates.
+
+(* The compare-exchange loop of await_barrier / quiescent_barrier: the number of failed compare-exchanges
+   of thread t in a run is at most the number of steps of OTHER threads that changed [desired] (their
+   successful compare-exchanges) during the run, +1 if t's expected value was stale already at the
+   start ([stale], 0 when t is not in the loop). *)
+Theorem C11_cas_failures_bounded :
+  forall t sched s, fstop (fexec sched s) = None ->
+    (cas_fails t sched s + stale t (fexec sched s) <= desired_changes_by_others t sched s + stale t s)%nat.
+Proof. exact fg_cas_failures_bounded. Qed.
+Print Assumptions C11_cas_failures_bounded.
+
+(* Liveness.  A round ([round sched s], Qs/QsFgLive.v) is a run segment such that
+     - some agent is online throughout,
+     - every agent that is online at its start completes one call of quiescent_state() or offline()
+       that begins inside the segment (after the call of that kind it may be inside at the start has
+       returned),
+     - every thread that is inside quiescent_state()/offline() at its start returns from that call;
+   the interleaving inside the segment is arbitrary, agents may come online at any time, an agent goes
+   offline only when it does not hold a deferred period (otherwise the run stops in assertion 127, D07:
+   the hypothesis is that the run does not stop).
+   After k consecutive rounds the period counter has advanced by at least k, as long as it is below a
+   value tg that some barrier desires: in particular it reaches the target of a pending node n after
+   [ftarget s n - ctr] rounds.  From then on the owner's next complete run() invokes the callback of
+   n: if the owner t is about to call run(), the callback is in the trace as soon as t has taken
+   3 + (the length of its pending list) steps, whatever the other threads do (exactly once:
+   C11_callback_once_by_owner). *)
+Theorem C11_liveness :
+  forall U nown scripts sched s tr, NoDup U -> few U -> scripts_ok U nown scripts ->
+    gen_f_run sched (f0 scripts) [] = (s, tr) ->
+    forall ls, rounds ls s ->
+    let s1 := fexec (concat ls) s in
+    (fstop s1 = None ->
+     forall tg, tg <= desired (fd s) -> tg <= ctr (fd s) + N.of_nat (length ls) -> tg <= ctr (fd s1)) /\
+    (forall sched2 t n, fstop (fexec sched2 s1) = None ->
+       ftarget s n <= ctr (fd s) + N.of_nat (length ls) ->
+       ftarget s n <= ctr (fd s1) /\
+       (In n (pending (tag (fth s1 t))) -> ftarget s1 n = ftarget s n ->
+        tpc (fth s1 t) = PIdle -> (exists rest, tscript (fth s1 t) = CRun :: rest) ->
+        (length (pending (tag (fth s1 t))) + 2 < count_occ Nat.eq_dec sched2 t)%nat ->
+        In (WCb n t) (ftrace sched2 s1))).
+Proof.
+  intros U nown scripts sched s tr ND HB Hok Hrun ls HR s1.
+  pose proof (run_reach scripts sched s tr Hrun) as Hr. split.
+  - intros Hns tg. apply (fgen_rounds U nown scripts ND HB Hok s tr ls tg Hr Hns HR).
+  - intros sched2 t n Hns. apply (fgen_liveness U nown scripts ND HB Hok s tr ls sched2 t n Hr Hns HR).
+Qed.
+Print Assumptions C11_liveness.
+
+(* the same for one round: the counter advances *)
+Theorem C11_round_progress :
+  forall U nown scripts sched s tr, NoDup U -> few U -> scripts_ok U nown scripts ->
+    gen_f_run sched (f0 scripts) [] = (s, tr) ->
+    forall l, round l s -> fstop (fexec l s) = None -> ctr (fd s) < desired (fd s) ->
+    ctr (fd s) < ctr (fd (fexec l s)).
+Proof.
+  intros U nown scripts sched s tr ND HB Hok Hrun l HR Hns Hd.
+  pose proof (run_reach scripts sched s tr Hrun) as Hr.
+  apply (round_progress U nown ND HB l s); try assumption.
+  apply (reach_all U nown scripts ND HB Hok s tr Hr). apply (fexec_nostop_head _ _ Hns).
+Qed.
+Print Assumptions C11_round_progress.
+
+(* quiescent_barrier() leaves its loop: thread b is in the loop of a barrier with target tg (at the
+   loop head, or inside the quiescent_state() the loop calls); after tg - ctr rounds the counter has
+   reached tg, and from then on b's next test of the loop condition returns from quiescent_barrier
+   (the quiescent_state() call in between is bounded by C11_call_terminates). *)
+Theorem C11_quiescent_barrier_returns :
+  forall U nown scripts sched s tr, NoDup U -> few U -> scripts_ok U nown scripts ->
+    gen_f_run sched (f0 scripts) [] = (s, tr) ->
+    forall ls b tg, rounds ls s ->
+    let s1 := fexec (concat ls) s in
+    fstop s1 = None ->
+    (tpc (fth s b) = PQb4 tg \/ tret (fth s b) = Some tg) ->
+    tg <= ctr (fd s) + N.of_nat (length ls) ->
+    tg <= ctr (fd s1) /\
+    forall sched2, let s2 := fexec sched2 s1 in
+      fstop s2 = None -> tpc (fth s2 b) = PQb4 tg ->
+      forall s3 evs op, gen_f_step b s2 = (s3, evs, op) ->
+        tpc (fth s3 b) = PIdle /\ In (WQbRet b) evs /\ fstop s3 = None.
+Proof.
+  intros U nown scripts sched s tr ND HB Hok Hrun ls b tg HR s1 Hns Hb Hlen.
+  pose proof (run_reach scripts sched s tr Hrun) as Hr.
+  apply (fgen_qb_returns U nown scripts ND HB Hok s tr ls b tg Hr Hns HR Hb Hlen).
+Qed.
+Print Assumptions C11_quiescent_barrier_returns.
+
+(* non-vacuity: three agents.  Agent 0 comes online, passes a quiescent state and holds the period
+   deferred (nothing is desired); agent 1 comes online; agent 0 registers node 0: counter 2, target 4.
+   Round 1 (round-robin 0,1,2): agent 0 restarts the deferred period, agent 2 comes online
+   mid-period, agents 0 and 1 pass quiescent states; round 2 (round-robin 2,1,0).  After the
+   2 = target - counter rounds the counter is 4 and four steps of agent 0 (the start of run(), the
+   load of the counter, the look at the node) invoke the callback.  [rounds_b] is the executable
+   check of [rounds] (Qs/QsFgLive.v, rounds_b_ok). *)
+Definition ex_lscripts (t : tid) : list call :=
+  match t with
+  | 0%nat => [COnline; CQsCall; CAwait 0; CQsCall; CQsCall; CQsCall; CQsCall; CRun; CRun]
+  | 1%nat => [COnline; CQsCall; CQsCall; CQsCall; CQsCall; CQsCall; CQsCall; CQsCall]
+  | 2%nat => [COnline; CQsCall; CQsCall; CQsCall; CQsCall]
+  | _ => [] end.
+Fixpoint rep {A} (k : nat) (l : list A) : list A := match k with O => [] | S k' => l ++ rep k' l end.
+Definition ex_lsetup : list tid := rep 7 [0%nat] ++ rep 4 [0%nat] ++ rep 4 [1%nat] ++ rep 4 [0%nat].
+Definition ex_lround1 : list tid := rep 9 [0; 1; 2]%nat.
+Definition ex_lround2 : list tid := rep 11 [2; 1; 0]%nat ++ [0%nat].
+
+Example C11_example_liveness_fine_grained :
+  let U := [0; 1; 2]%nat in
+  let '(s, tr) := gen_f_run ex_lsetup (f0 ex_lscripts) [] in
+  let s1 := fexec (ex_lround1 ++ ex_lround2) s in
+  scripts_ok U (fun _ => 0%nat) ex_lscripts /\ NoDup U /\ few U /\
+  ctr (fd s) = 2 /\ ftarget s 0%nat = 4 /\ deferred (tag (fth s 0%nat)) = true /\
+  acked (tag (fth s 2%nat)) = 0 /\ acked (tag (fth s1 2%nat)) <> 0 /\
+  rounds [ex_lround1; ex_lround2] s /\ fstop s1 = None /\ ctr (fd s1) = 4 /\
+  tpc (fth s1 0%nat) = PIdle /\ tscript (fth s1 0%nat) = [CRun; CRun] /\ pending (tag (fth s1 0%nat)) = [0%nat] /\
+  ftrace (rep 4 [0%nat]) s1 = [WNode 0; WNode 0; WNode 0; WNode 0; WCb 0 0].
+Proof.
+  destruct (gen_f_run ex_lsetup (f0 ex_lscripts) []) as [s tr] eqn:E. cbv zeta.
+  assert (Hok : scripts_ok [0; 1; 2]%nat (fun _ => 0%nat) ex_lscripts).
+  { split.
+    - intros t H. destruct t as [|[|[|t]]]; [cbn in H; tauto|cbn in H; tauto|cbn in H; tauto|reflexivity].
+    - intros t n H. destruct t as [|[|[|t]]]; [reflexivity| | |destruct H];
+        cbn in H; repeat (destruct H as [H|H]; [discriminate|]); destruct H. }
+  assert (ND : NoDup [0; 1; 2]%nat) by (repeat constructor; cbn; intuition discriminate).
+  assert (HB : few [0; 1; 2]%nat) by (vm_compute; reflexivity).
+  pose proof (run_all [0; 1; 2]%nat (fun _ => 0%nat) ex_lscripts ND HB Hok ex_lsetup s tr E) as HA.
+  vm_compute in E. inversion E; subst s tr; clear E.
+  split; [exact Hok|]. split; [exact ND|]. split; [exact HB|].
+  split; [vm_compute; reflexivity|]. split; [vm_compute; reflexivity|]. split; [vm_compute; reflexivity|].
+  split; [vm_compute; reflexivity|]. split; [vm_compute; discriminate|].
+  split.
+  - apply (rounds_b_ok [0; 1; 2]%nat (fun _ => 0%nat) ND HB); [apply HA; vm_compute; reflexivity| |]; vm_compute; reflexivity.
+  - repeat split; vm_compute; reflexivity.
+Qed.
+
+(* non-vacuity of C11_call_terminates / C11_cas_failures_bounded: two threads, two nodes.  Thread 1 enters
+   await_barrier(node 1) while the counter is 1 (target 3) and reads desired = 0; thread 0 comes
+   online (6 progress steps after the start of the call; counter 2), enters await_barrier(node 0)
+   (target 4) and reads desired = 0; thread 1's compare-exchange succeeds (desired = 3); thread 0's
+   fails (kind KCasFail: expected 0 < 3, 3 < 4), re-reads 3 and succeeds: one failure, one change of
+   [desired] by another thread.  Then thread 1 takes the mutex in online(); thread 0, last to ack in
+   quiescent_state(), is blocked at its lock() (KBlocked) until thread 1 has taken 5 more steps. *)
+Definition ex_kscripts (t : tid) : list call :=
+  match t with
+  | 0%nat => [COnline; CAwait 0; CQsCall]
+  | 1%nat => [CAwait 1; COnline]
+  | _ => [] end.
+
+Example C11_example_call_kinds :
+  let s0 := fexec (rep 3 [1%nat] ++ rep 7 [0%nat] ++ rep 3 [0%nat]) (f0 ex_kscripts) in
+  let s1 := fnext 1%nat s0 in
+  let s2 := fexec ([1; 0; 0] ++ [1; 1] ++ [0; 0; 0; 0])%nat s0 in
+  progress_steps 0%nat (rep 7 [0%nat]) (f0 ex_kscripts) = 6%nat /\ call_bound COnline agent0 = 7%nat /\
+  tpc (fth (fexec (rep 7 [0%nat]) (f0 ex_kscripts)) 0%nat) = PIdle /\
+  step_kind 0%nat s1 = KCasFail /\ cas_expected (fth s1 0%nat) = Some 0 /\ desired (fd s1) = 3 /\
+  cas_expected (fth (fnext 0%nat s1) 0%nat) = Some 3 /\
+  cas_fails 0%nat [1; 0; 0]%nat s0 = 1%nat /\ desired_changes_by_others 0%nat [1; 0; 0]%nat s0 = 1%nat /\
+  stale 0%nat s0 = 0%nat /\ desired (fd (fexec [1; 0; 0]%nat s0)) = 4 /\
+  step_kind 0%nat s2 = KBlocked /\ fmx s2 = Some 1%nat /\ hrank (tpc (fth s2 1%nat)) = 5%nat /\
+  fmx (fexec (rep 5 [1%nat]) s2) = None /\ step_kind 0%nat (fexec (rep 5 [1%nat]) s2) = KProgress /\
+  fstop (fexec (rep 5 [1%nat]) s2) = None.
+Proof. vm_compute. repeat split; reflexivity. Qed.
+
+(* NOT PROVED (statement kept visible):
+
+   "For every fair scheduler every call returns and every registered callback is eventually invoked" as a
+   statement about infinite runs.  Proved above instead, for all finite runs: every call takes a bounded
+   number of own steps apart from lock attempts on a held mutex (the holder releases it within 5 of
+   its own steps), failed compare-exchanges (bounded by the successful ones of other threads) and
+   the spin of quiescent_barrier (left once the counter has reached the target); the counter advances in
+   every round.  Behaviours that are not sequentially consistent are outside the model (DESIGN 7). *)
 
 (* ---- non-vacuity (whole-operation) ---- *)
 
